@@ -1,55 +1,22 @@
-import GoCrypt.Base.SliceIR
-import GoCrypt.Gen.SliceIR
-import GoCrypt.Gen.Flow
+import GoCrypt.Props.C13IR
+import GoCrypt.Props.C13Sound
 
 /-!
 # C13 — key derivation is pure: arguments untouched, result not aliased, deterministic
 
-The slice-effect IR of every `Key` (module-internal callees inlined) is regenerated from the current
-source on every run. `argSafe` / `resultFresh` are decided on it by the kernel:
+* `Props/C13IR.lean`: for each of the ten `Key` functions the kernel decides `argSafe` and
+  `resultFresh` on the slice-effect IR regenerated from the current source.
+* `Props/C13Sound.lean`: what those booleans MEAN — a concrete nondeterministic semantics of the IR
+  (`Spec/SliceSem.lean`: arrays with an origin, a store log and a return log; every execution is some
+  sequence of the program's statements) and the soundness theorems: `argSafe p` ⇒ no run ever stores
+  into an argument's or a package variable's array; `resultFresh p` ⇒ every returned array was
+  allocated by this call; results of two calls never share an array. Completeness theorems show the
+  analysis rejects only programs that have an offending run (or need more passes).
 
-* `argSafe`: no store (`x[i] = …`, `copy`, `PutUint…`, `Encode(dst, …)`, `append` into spare
-  capacity, `h.Sum(b)`) targets an array that can be an argument's or a package variable's —
-  under the flow-insensitive points-to approximation, which over-approximates every execution;
-* `resultFresh`: every returned slice is rooted only in memory allocated during the call.
-
-Determinism: the models of all ten `Key`s are Lean functions of their arguments (`Scheme.key`), and
-agree with the Go code key for key (suite `purity`/`kdf`); the only entropy consumer is sha1's
-documented random-rounds request.
+The obligations of C13 are the union of both files.
 -/
 
-set_option maxRecDepth 100000
-
 namespace GoCrypt.C13
-open GoCrypt.SliceIR GoCrypt.Gen
-
-theorem argSafe_argon2 : argSafe argon2.keySlices = true := by decide +kernel
-theorem argSafe_bcrypt : argSafe bcrypt.keySlices = true := by decide +kernel
-theorem argSafe_des : argSafe des.keySlices = true := by decide +kernel
-theorem argSafe_desext : argSafe desext.keySlices = true := by decide +kernel
-theorem argSafe_md5 : argSafe md5.keySlices = true := by decide +kernel
-theorem argSafe_nthash : argSafe nthash.keySlices = true := by decide +kernel
-theorem argSafe_sha1 : argSafe sha1.keySlices = true := by decide +kernel
-theorem argSafe_sha256 : argSafe sha256.keySlices = true := by decide +kernel
-theorem argSafe_sha512 : argSafe sha512.keySlices = true := by decide +kernel
-theorem argSafe_sunmd5 : argSafe sunmd5.keySlices = true := by decide +kernel
-
-theorem resultFresh_argon2 : resultFresh argon2.keySlices = true := by decide +kernel
-theorem resultFresh_bcrypt : resultFresh bcrypt.keySlices = true := by decide +kernel
-theorem resultFresh_des : resultFresh des.keySlices = true := by decide +kernel
-theorem resultFresh_desext : resultFresh desext.keySlices = true := by decide +kernel
-theorem resultFresh_md5 : resultFresh md5.keySlices = true := by decide +kernel
-theorem resultFresh_nthash : resultFresh nthash.keySlices = true := by decide +kernel
-theorem resultFresh_sha1 : resultFresh sha1.keySlices = true := by decide +kernel
-theorem resultFresh_sha256 : resultFresh sha256.keySlices = true := by decide +kernel
-theorem resultFresh_sha512 : resultFresh sha512.keySlices = true := by decide +kernel
-theorem resultFresh_sunmd5 : resultFresh sunmd5.keySlices = true := by decide +kernel
-
-/-- The defect repaired in bcrypt.setup, as an IR program: appending to a slice of the password
-parameter is flagged, capping the capacity first is not. -/
-example : argSafe [.fromParam 0 0, .alias 1 0, .appendTo 2 1] = false := by decide +kernel
-example : argSafe [.fromParam 0 0, .alias 1 0, .alloc 2] = true := by decide +kernel
-example : resultFresh [.fromParam 0 0, .alias 1 0, .ret 1] = false := by decide +kernel
 
 #print axioms argSafe_argon2
 #print axioms argSafe_bcrypt
@@ -71,5 +38,34 @@ example : resultFresh [.fromParam 0 0, .alias 1 0, .ret 1] = false := by decide 
 #print axioms resultFresh_sha256
 #print axioms resultFresh_sha512
 #print axioms resultFresh_sunmd5
+#print axioms GoCrypt.C13Sound.pointsTo_sound
+#print axioms GoCrypt.C13Sound.pointsTo_exact
+#print axioms GoCrypt.C13Sound.argSafe_sound
+#print axioms GoCrypt.C13Sound.resultFresh_sound
+#print axioms GoCrypt.C13Sound.results_disjoint_across_calls
+#print axioms GoCrypt.C13Sound.later_call_never_stores_into_earlier_result
+#print axioms GoCrypt.C13Sound.argSafe_complete
+#print axioms GoCrypt.C13Sound.resultFresh_complete
+#print axioms GoCrypt.C13Sound.argon2_key_never_stores_into_arguments
+#print axioms GoCrypt.C13Sound.bcrypt_key_never_stores_into_arguments
+#print axioms GoCrypt.C13Sound.des_key_never_stores_into_arguments
+#print axioms GoCrypt.C13Sound.desext_key_never_stores_into_arguments
+#print axioms GoCrypt.C13Sound.md5_key_never_stores_into_arguments
+#print axioms GoCrypt.C13Sound.nthash_key_never_stores_into_arguments
+#print axioms GoCrypt.C13Sound.sha1_key_never_stores_into_arguments
+#print axioms GoCrypt.C13Sound.sha256_key_never_stores_into_arguments
+#print axioms GoCrypt.C13Sound.sha512_key_never_stores_into_arguments
+#print axioms GoCrypt.C13Sound.sunmd5_key_never_stores_into_arguments
+#print axioms GoCrypt.C13Sound.argon2_key_returns_only_fresh_memory
+#print axioms GoCrypt.C13Sound.bcrypt_key_returns_only_fresh_memory
+#print axioms GoCrypt.C13Sound.des_key_returns_only_fresh_memory
+#print axioms GoCrypt.C13Sound.desext_key_returns_only_fresh_memory
+#print axioms GoCrypt.C13Sound.md5_key_returns_only_fresh_memory
+#print axioms GoCrypt.C13Sound.nthash_key_returns_only_fresh_memory
+#print axioms GoCrypt.C13Sound.sha1_key_returns_only_fresh_memory
+#print axioms GoCrypt.C13Sound.sha256_key_returns_only_fresh_memory
+#print axioms GoCrypt.C13Sound.sha512_key_returns_only_fresh_memory
+#print axioms GoCrypt.C13Sound.sunmd5_key_returns_only_fresh_memory
+#print axioms GoCrypt.C13Sound.bcrypt_keys_of_two_calls_are_disjoint
 
 end GoCrypt.C13
